@@ -220,7 +220,7 @@ Verify ==
               IN [snap |-> unknown # {}, off |-> 0, gen |-> hdrGen, clr |-> FALSE, prevC |-> pc0]
 
 SyncResult(info) ==
-  LET useOff == info.off
+  LET useOff == IF info.snap THEN 0 ELSE info.off     \* a snapshot reads the WAL from its header (db.go sync(), fix S1)
       g   == IF useOff = 0 THEN hdrGen ELSE info.gen
       prevOK == useOff = 0 \/ (useOff <= Len(wal) /\ wal[useOff].gen = g)
       off2 == IF prevOK THEN useOff ELSE 0
